@@ -418,3 +418,11 @@ Require Copia.Proofs.TieBisyncSys.
 Theorem C08_copy_steps_are_translation_of_source : TieBisyncSys.copy_atomic_is_translation.
 Proof. exact TieBisyncSys.copy_atomic_is_translation_holds. Qed.
 Print Assumptions C08_copy_steps_are_translation_of_source.
+
+(** The archive steps of the crash model (stage, write, fsync, [.bak rotation iff an archive file exists], rename into
+    place, fsync of the directory) are the file-system calls of archive.rs `Archive::save` as the source has them now
+    (Gen/ArchiveSaveGen.v, Proofs/TieArchiveSave.v). *)
+Require Copia.Proofs.TieArchiveSave.
+Theorem C08_archive_steps_are_translation_of_source : TieArchiveSave.archive_save_is_translation.
+Proof. exact TieArchiveSave.archive_save_is_translation_holds. Qed.
+Print Assumptions C08_archive_steps_are_translation_of_source.
